@@ -78,6 +78,10 @@ pub struct World {
     pub tamper: bool,
     /// dry-run requests before every block
     pub dry: bool,
+    /// relayer history (flag F_RELAYER): DA height -> events, ascending
+    pub relayed: Vec<(u64, Vec<fuel_core_types::services::relayer::Event>)>,
+    /// the block at height 0 exists (flag F_RELAYER; one case in 12 leaves it out)
+    pub has_genesis_block: bool,
 }
 
 fn bytes32(rng: &mut Rng) -> [u8; 32] {
@@ -213,6 +217,105 @@ impl World {
             executed: vec![],
             tamper: false,
             dry: false,
+            relayed: vec![],
+            has_genesis_block: false,
+        }
+    }
+
+    /// Relayer history and the block at height 0 (flag F_RELAYER).  The events go through the
+    /// relayer database's own write path (EventsHistory insert + height-checked commit, one
+    /// DA height per commit as RelayerDb::insert_events does).
+    pub fn init_relayer(&mut self, rng: &mut Rng) {
+        use fuel_core_relayer::storage::EventsHistory;
+        use fuel_core_storage::tables::FuelBlocks;
+        use fuel_core_types::{
+            blockchain::block::Block,
+            entities::{relayer::transaction::RelayedTransactionV1, RelayedTransaction},
+            fuel_types::canonical::Serialize,
+            services::relayer::Event,
+        };
+        let d0: u64 = *rng.pick(&[0u64, 0, 0, 2, 2, u64::MAX - 2, u64::MAX]);
+        self.da_height = d0;
+        self.has_genesis_block = !rng.chance(1, 12);
+        if self.has_genesis_block {
+            let mut block = Block::default();
+            block.header_mut().set_da_height(d0.into());
+            block.header_mut().recalculate_metadata();
+            let mut t = self.db.write_transaction();
+            t.storage_as_mut::<FuelBlocks>()
+                .insert(&BlockHeight::new(0), &block.compress(&self.params.chain_id()))
+                .unwrap();
+            t.commit().unwrap();
+        }
+        let bad_da = rng.chance(1, 10);
+        let start = d0.saturating_sub(1);
+        for off in 0..10u64 {
+            let Some(da) = start.checked_add(off) else { break };
+            let mut evs: Vec<Event> = vec![];
+            for _ in 0..rng.below(4) {
+                match rng.below(6) {
+                    0..=2 => {
+                        let wallet = rng.below(3) as usize;
+                        let data = if rng.chance(1, 2) { vec![] } else { vec![0xcd; rng.range(1, 5) as usize] };
+                        let nonce = if rng.chance(1, 10) && !self.msgs.is_empty() {
+                            // re-delivery of a known nonce
+                            *self.msgs[rng.below(self.msgs.len() as u64) as usize].msg.nonce()
+                        } else {
+                            Nonce::new(bytes32(rng))
+                        };
+                        let m: Message = MessageV1 {
+                            sender: Address::new(bytes32(rng)),
+                            recipient: self.wallets[wallet].1,
+                            nonce,
+                            amount: amount(rng, 0),
+                            data,
+                            da_height: (if bad_da && rng.chance(1, 3) { da.wrapping_add(1) } else { da }).into(),
+                        }
+                        .into();
+                        self.msgs.push(KnownMsg { msg: m.clone(), wallet, used: true });
+                        evs.push(Event::Message(m));
+                    }
+                    k => {
+                        let (bytes, max_gas): (Vec<u8>, u64) = match k {
+                            3 => (vec![1, 2, 3, 4, 5], 1_000_000),
+                            4 => {
+                                let tx = self.gen_tx(rng, 0);
+                                let b = tx.to_bytes();
+                                // sometimes the claimed gas is too small
+                                (b, if rng.chance(1, 3) { 10 } else { 50_000_000 })
+                            }
+                            _ => {
+                                let mint: Transaction = Transaction::mint(
+                                    Default::default(),
+                                    Default::default(),
+                                    Default::default(),
+                                    0,
+                                    AssetId::BASE,
+                                    0,
+                                )
+                                .into();
+                                (mint.to_bytes(), 1_000_000)
+                            }
+                        };
+                        let r: RelayedTransaction = RelayedTransactionV1 {
+                            nonce: Nonce::new(bytes32(rng)),
+                            max_gas,
+                            serialized_transaction: bytes,
+                            da_height: da.into(),
+                        }
+                        .into();
+                        evs.push(Event::Transaction(r));
+                    }
+                }
+            }
+            let mut rt = self.relayer.write_transaction();
+            rt.storage_as_mut::<EventsHistory>().insert(&da.into(), evs.as_slice()).unwrap();
+            rt.commit().unwrap();
+            self.relayed.push((da, evs));
+        }
+        // forced transactions were built over the coins: they stay usable by later ones
+        for c in self.coins.iter_mut() {
+            c.used = false;
         }
     }
 
